@@ -1074,9 +1074,16 @@ def real_writes(ctx, func):
     return out
 
 
+# derived per-tree caches: filling them (contract_stats(), a getter) does not make the
+# working tree differ from the original in any way a reader of the original could see;
+# every real transformation also writes children / sliced_inds / multiplicity / ...
+DERIVED_CACHES = {"info", "contraction_cores", "already_optimized", "_flops", "_write", "_sizes",
+                  "_track_flops", "_track_write", "_track_size", "_default_objective"}
+
+
 def _stale_reads_of_original(ctx, f, wname, orig):
     """Mentions of ``orig`` that are reachable from a statement changing ``wname``."""
-    state = transformation_state(ctx)
+    state = transformation_state(ctx) - DERIVED_CACHES
     fl = ctx.flow(f)
     parents = f.module.parents
     eff = ctx.effects
